@@ -122,6 +122,7 @@ Fmts == {"float32", "float16", "bfloat16"}
 PBits(fmt) == IF fmt = "float32" THEN 24 ELSE IF fmt = "float16" THEN 11 ELSE 8
 EMin(fmt)  == IF fmt = "float16" THEN -14 ELSE -126     \* smallest normal exponent
 EMax(fmt)  == IF fmt = "float16" THEN 15 ELSE 127
+EtaExp(fmt) == IF fmt = "float32" THEN -149 ELSE IF fmt = "float16" THEN -24 ELSE -133   \* smallest subnormal
 
 RECURSIVE OddPart(_)
 OddPart(n) == IF n = 0 THEN 0 ELSE IF n % 2 = 0 THEN OddPart(n \div 2) ELSE n
